@@ -126,3 +126,37 @@ def vec_literal_len(fn):
             if s["k"] == "assign" and s["rv"]["k"] == "aggregate" and s["rv"].get("agg") == "array":
                 out.append((len(s["rv"]["ops"]), s["rv"]["ops"]))
     return out
+
+
+def deep_strings(du, v, out=None, depth=0):
+    """constant strings and callee names occurring in a value expression, following unique-def locals behind references"""
+    if out is None:
+        out = set()
+    if depth > 14:
+        return out
+    if v[0] == "const":
+        if isinstance(v[1], str):
+            out.add(v[1])
+        return out
+    if v[0] in ("ref", "place"):
+        vv = du.val_place((v[1][0], ()))
+        if vv != v and vv[0] != "place":
+            deep_strings(du, vv, out, depth + 1)
+        for p in v[1][1]:
+            if isinstance(p, tuple) and p[0] == "f" and p[2]:
+                out.add("." + str(p[2]))
+        return out
+    if v[0] == "call":
+        out.add(v[1] or "")
+        for a in v[2]:
+            deep_strings(du, a, out, depth + 1)
+        return out
+    if v[0] in ("unop", "cast"):
+        return deep_strings(du, v[2], out, depth + 1)
+    if v[0] == "binop":
+        deep_strings(du, v[2], out, depth + 1)
+        return deep_strings(du, v[3], out, depth + 1)
+    if v[0] == "aggregate":
+        for a in v[3]:
+            deep_strings(du, a, out, depth + 1)
+    return out
